@@ -84,6 +84,64 @@ def gen_fault_case(rng):
     return L
 
 
+def gen_chain_loss_case(rng):
+    """directed: one request at a time, resending enabled, and its connection lost again and again -- while other pipes are ready
+    (immediate retransmission on the next one), after the transport took the request or before, with a new replier connecting in
+    between or only afterwards; finally the reply on the connection the request was last written to.  The generator keeps the
+    ready list, so every drop hits the pipe that carries the request."""
+    L = ["open s0 req0", "setopt s0 req:resend-time ms %d" % rng.choice([5000, 60000])]
+    tgts = ["s0"]
+    for k in range(rng.choice([0, 1, 2])):
+        L.append("ctx c%d s0" % k); tgts.append("c%d" % k)
+    st = {"np": 0, "naio": 0, "nmsg": 0, "nreq": 0}
+    ready = []
+
+    def conn():
+        L.append("conn s0 49"); ready.append(st["np"]); st["np"] += 1
+
+    def aio():
+        st["naio"] += 1; return "a%d" % (st["naio"] - 1)
+
+    def body(tag):
+        st["nmsg"] += 1; return "%s%04x" % (tag, st["nmsg"])
+
+    for _ in range(rng.choice([1, 2, 3])):
+        conn()
+    for _ in range(rng.choice([1, 2, 2, 3])):
+        if not ready:
+            conn()
+        t = rng.choice(tgts)
+        L.append("send %s %s - %s" % (t, aio(), body("aa"))); rid = st["nreq"]; st["nreq"] += 1
+        cur = ready.pop(0)              # the pipe the request is on (busy)
+        taken = False
+        early = rng.random() < 0.5
+        if early:
+            L.append("recv %s %s" % (t, aio()))
+        for _ in range(rng.choice([1, 2, 2, 3, 4])):
+            if rng.random() < 0.4 and not taken:
+                L.append("sent p%d" % cur); taken = True; ready.append(cur)      # the replier has read it
+            if rng.random() < 0.3 and st["np"] < 7:
+                conn()
+            L.append("drop p%d" % cur)
+            if cur in ready:
+                ready.remove(cur)
+            if not ready:
+                if rng.random() < 0.5:
+                    L.append("poll")
+                conn()
+            cur = ready.pop(0); taken = False                                    # retransmitted at once
+        if rng.random() < 0.7:
+            L.append("sent p%d" % cur); ready.append(cur); taken = True
+        L.append("inject p%d [R%d]%s" % (cur, rid, body("bb")))
+        if not early:
+            L.append("recvnb %s" % t if rng.random() < 0.5 else "recv %s %s" % (t, aio()))
+        if not taken:
+            L.append("sent p%d" % cur); ready.append(cur)
+    for t in tgts:
+        L.append("recvnb %s" % t)
+    return L
+
+
 STATS = {}
 
 
@@ -211,6 +269,8 @@ def run(tier, seed, replay=None):
             cases.append(c04.FIXED_CASES[4])
         if flags.get("REQ_CLONE"):
             cases.append(c04.FIXED_CASES[2])
+        rng2 = random.Random(seed + 7919)
+        cases += [gen_chain_loss_case(rng2) for _ in range(24 if tier == "quick" else 500)]
         for i in range(n):
             cases.append(gen_fault_case(rng) if i % 3 else c04.gen_req_case(rng, timed=True, allow_opt_change=full, allow_cancel_send=full))
     proto_run(rep, "C12", tier, bdir, cases, oracle, model_driver="c04", label="REQ retry")
@@ -229,7 +289,8 @@ def run(tier, seed, replay=None):
                        "extracted ReqModel: 1-4 requests on the socket and 0-2 contexts, resend time infinite / 5 s / 60 s (per context too), tick 1 s / 3 s, "
                        "connection loss before the request is written / after / after the replier took it / after the reply was written, replier restarts "
                        "(new pipes), replies with the current or a stale id, `advance` steps that stay >= 1 s away from every deadline, a final drain; "
-                       "one third random timed REQ histories of checks/c04.py.  Oracle on the implementation's observations: C04's matching clauses, "
+                       "one third random timed REQ histories of checks/c04.py; directed chain-loss scripts (the connection carrying the request lost repeatedly "
+                       "while other pipes are ready, before / after the transport took it).  Oracle on the implementation's observations: C04's matching clauses, "
                        "at most one transmission without resending, ECONNRESET only without resending, same id on every retransmission, no retransmission of "
                        "a superseded request, and no outstanding request left off the wire while a pipe is ready")
     return rep.finish()
